@@ -144,3 +144,33 @@ package schemabuilder
 //@   call Value.Index assert arg1 == i
 //@   loop 1 invariant -1 <= rangeindex && rangeindex < len(asSlice) && (forall k int :: 0 <= k && k <= rangeindex ==> parsed[k])
 //@   ensures err == nil ==> forall k int :: 0 <= k && k < len(value.([]interface{})) ==> parsed[k]
+
+// ---- C01 (batch plumbing): the batch function sees sources[i] under batch index i - every source gets its own map
+// entry keyed by its own index, and a value-typed source that must be passed by pointer is copied into an allocation
+// made for it in the same iteration (never shared between sources).
+//@ func batchFuncContext.prepareResolveArgs
+//@   requires funcCtx != nil
+//@   ghost newAt int
+//@   entry ghost newAt = 0 - 1
+//@   call NewIndex assert arg0 == idx
+//@   call New ghost newAt = idx
+//@   call Value.SetMapIndex#2 assert newAt == idx && arg2 == copyPtr
+//@   call Value.SetMapIndex assert arg1 == idxValues[idx]
+//@   call ValueOf#2 assert arg0 == source
+//@   loop 1 invariant -1 <= rangeindex && rangeindex < len(sources) && len(idxValues) == len(sources) && fresh(idxValues) && newAt <= rangeindex
+
+// ---- C11 (sort order): the comparison handed to sort.SliceStable is a strict ordering in both directions - two
+// elements with the same sort value are never "less" than one another, which is what keeps equal elements in their
+// original order (stability), ascending and descending alike.
+//@ func init$17$1
+//@   assume 0 <= i && i < len(deref(slice)) && 0 <= j && j < len(deref(slice))
+//@   ensures deref(slice)[i].value == deref(slice)[j].value ==> !result
+//@ func init$18$1
+//@   assume 0 <= i && i < len(deref(slice)) && 0 <= j && j < len(deref(slice))
+//@   ensures deref(slice)[i].value == deref(slice)[j].value ==> !result
+//@ func init$19$1
+//@   assume 0 <= i && i < len(deref(slice)) && 0 <= j && j < len(deref(slice))
+//@   ensures deref(slice)[i].value == deref(slice)[j].value ==> !result
+//@ func init$20$1
+//@   assume 0 <= i && i < len(deref(slice)) && 0 <= j && j < len(deref(slice))
+//@   ensures deref(slice)[i].value == deref(slice)[j].value ==> !result
